@@ -82,7 +82,8 @@ def replay_zmk(parts, master=None, kcvkeys=None):
         got_k = key.calculate_kcv(bytes.fromhex(kk))
         if got_k != want_k:
             return True, 'KCV of %d-byte key %s is %s, E(key, zeros) starts %s' % (len(kk) // 2, kk, got_k, want_k), 'C14/kcv'
-    for n in (1, 4, 5, 7, 16):
+    k0 = k0 + k0
+    for n in (1, 4, 5, 7, 16, 17, 24, 32):
         if key.calculate_kcv(bytes.fromhex(want), n) != k0[:n]:
             return True, 'calculate_kcv(kvc_length=%d) = %r, E(key,0) starts %r' % (n, key.calculate_kcv(bytes.fromhex(want), n), k0[:n]), 'C14/kcv'
     master = master or '0123456789abcdeffedcba9876543210'
